@@ -92,6 +92,7 @@ type vAbs struct {
 	Marker map[string]uint64 `json:"marker"`
 	Rev    uint64            `json:"rev"`
 	Cexp   int64             `json:"cexp"` // ns
+	Maxs   uint64            `json:"maxs"` // Config.MaxSessions
 }
 
 type vLss struct {
@@ -157,6 +158,14 @@ type vEvent struct {
 	Chk   *vChk     `json:"chk,omitempty"`
 	Info  string    `json:"info,omitempty"`
 	Raw   []vRawRec `json:"raw,omitempty"`
+	Final *vFinal   `json:"final,omitempty"`
+}
+
+// vFinal: outcome of the state-changing probes run once at the end of a schedule
+type vFinal struct {
+	Eq     bool   `json:"eq"`
+	Diff   string `json:"diff,omitempty"`
+	Probes int    `json:"probes"`
 }
 
 // ---------------------------------------------------------------- encoding
@@ -266,6 +275,7 @@ func vAbsOf(s *pb.Snapshot) *vAbs {
 	sort.Slice(a.Marks, func(i, j int) bool { return a.Marks[i] < a.Marks[j] })
 	if s.Config != nil {
 		a.Rev = s.Config.Revision
+		a.Maxs = s.Config.MaxSessions
 		if d, err := time.ParseDuration(s.Config.SessionExpiration); err == nil {
 			a.Cexp = int64(d)
 		}
@@ -968,6 +978,90 @@ func (n *vNode) observe() (*vPost, *vChk) {
 	return p, c
 }
 
+// vActiveProbe sends state-changing commands from EVERY session (JOIN / PRIVMSG /
+// TOPIC / NAMES on a probe channel): whether they are executed or answered 451
+// depends on per-session state (registration, login pending) that queries from
+// one logged-in session do not exercise.  It changes the server, so it is only
+// run when the schedule is over.
+func vActiveProbe(srv *ircserver.IRCServer, ids []robust.Id) []string {
+	var out []string
+	k := uint64(0)
+	for _, id := range ids {
+		for _, l := range []string{"JOIN #zzprobe", "PRIVMSG #zzprobe :probe", "TOPIC #zzprobe :t", "NAMES #zzprobe", "MODE #zzprobe"} {
+			if _, err := srv.GetSession(id); err != nil {
+				out = append(out, fmt.Sprintf("%d %s => no such session", id.Id, l))
+				continue
+			}
+			k++
+			m := &robust.Message{Id: robust.Id{Id: 1<<41 + k}, Session: id, Type: robust.IRCFromClient, Data: l}
+			rep := srv.ProcessMessage(m, irc.ParseMessage(l))
+			srv.MaybeDeleteSession(id)
+			for _, x := range rep.Messages {
+				var to []string
+				for t, v := range x.InterestingFor {
+					if v {
+						to = append(to, strconv.FormatUint(t, 10))
+					}
+				}
+				sort.Strings(to)
+				out = append(out, fmt.Sprintf("%d %s => %s @%s", id.Id, l, vRe003.ReplaceAllString(x.Data, "$1"), strings.Join(to, ",")))
+			}
+		}
+	}
+	return out
+}
+
+func (n *vNode) finalProbe() *vFinal {
+	if n.ref.at(n.applied) == nil {
+		return nil
+	}
+	refsrv, _, panicked := n.ref.replay(n.applied, nil) // a fresh, never-snapshotted instance
+	if panicked {
+		return nil
+	}
+	idset := map[robust.Id]bool{}
+	for _, srv := range []*ircserver.IRCServer{ircServer, refsrv} {
+		_, snap, err := vCanon(mustMarshal(srv))
+		if err != nil {
+			return &vFinal{Eq: false, Diff: err.Error()}
+		}
+		for _, x := range snap.Sessions {
+			idset[robust.Id{Id: x.Id.Id, Reply: x.Id.Reply}] = true
+		}
+	}
+	ids := make([]robust.Id, 0, len(idset))
+	for id := range idset {
+		ids = append(ids, id)
+	}
+	sort.Slice(ids, func(a, b int) bool {
+		if ids[a].Id != ids[b].Id {
+			return ids[a].Id < ids[b].Id
+		}
+		return ids[a].Reply < ids[b].Reply
+	})
+	got := vActiveProbe(ircServer, ids)
+	want := vActiveProbe(refsrv, ids)
+	f := &vFinal{Eq: len(got) == len(want), Probes: len(want)}
+	for i := 0; f.Eq && i < len(got); i++ {
+		if got[i] != want[i] {
+			f.Eq = false
+			f.Diff = fmt.Sprintf("got %q want %q", got[i], want[i])
+		}
+	}
+	if !f.Eq && f.Diff == "" {
+		f.Diff = fmt.Sprintf("%d probe replies, reference %d", len(got), len(want))
+	}
+	if f.Eq {
+		// and the states the probes led to
+		a, _, _ := vCanon(mustMarshal(ircServer))
+		b, _, _ := vCanon(mustMarshal(refsrv))
+		if a != b {
+			f.Eq, f.Diff = false, "state after the probes: "+vDiff(a, b)
+		}
+	}
+	return f
+}
+
 func mustMarshal(s *ircserver.IRCServer) []byte {
 	b, err := s.Marshal(0)
 	if err != nil {
@@ -1091,7 +1185,16 @@ func vRunSchedule(s *vSchedule, base string, seq int, emit func(vEvent)) {
 			return
 		}
 	}
-	emit(vEvent{Sched: s.Name, N: len(s.Steps), Ev: "End"})
+	end := vEvent{Sched: s.Name, N: len(s.Steps), Ev: "End"}
+	func() {
+		defer func() {
+			if p := recover(); p != nil {
+				end.Final = &vFinal{Eq: false, Diff: "panic in final probes: " + fmt.Sprint(p)}
+			}
+		}()
+		end.Final = n.finalProbe()
+	}()
+	emit(end)
 }
 
 // vQuiet: the real code logs every step; keep the pipes quiet unless asked.
